@@ -66,6 +66,11 @@ ProofVerdict(e) ==
        ELSE IF x.root # root THEN V("extracted-root", Take(root, 4), Take(x.root, 4))
        ELSE IF x.items # SortedSeq(S) THEN V("extracted-positions", Cut(SortedSeq(S)), Cut(x.items))
        ELSE IF x.matches # leaves THEN V("extracted-hashes", Cut(Brief32(leaves)), Cut(Brief32(x.matches)))
+       \* asked again, the object gives the same answer (fix 4e80cbb: every extraction starts from the beginning)
+       \* (the property does not promise that a second call succeeds: it may refuse, with the first call's lists or none)
+       ELSE IF "extract2" \in DOMAIN e /\ e.extract2 # x
+               /\ ~(~e.extract2.ok /\ ((e.extract2.matches = x.matches /\ e.extract2.items = x.items) \/ (Len(e.extract2.matches) = 0 /\ Len(e.extract2.items) = 0)))
+         THEN V("second-extraction-differs", "the first answer, or a refusal", [ok |-> e.extract2.ok, items |-> Cut(e.extract2.items)])
        ELSE OK >>)
 
 \* growth: the same object asked twice
